@@ -458,8 +458,11 @@ func cmdServe(args []string) {
 					r.Header["Last-Event-Id"] = []string{"a\nb"}
 				}
 				p := &recProvider{send: true}
-				if cs.C.Provider == "err" {
+				switch cs.C.Provider {
+				case "err":
 					p.err = errProvider
+				case "errcanceled":
+					p.err = fmt.Errorf("%w: %w", errProvider, context.Canceled)
 				}
 				s := &sse.Server{Provider: p}
 				called := false
